@@ -15,22 +15,20 @@ structure Buf where
   max : Nat
   deriving Repr, Inhabited
 
-/-- `SharedMemoryLimiter::increase_usage` (limiter.rs:31) -/
+/-- `SharedMemoryLimiter::increase_usage` (limiter.rs:31): charge first, compare afterwards. -/
 def Buf.increase (b : Buf) (n : Nat) : Buf × Bool :=
-  let b := { b with usage := b.usage + n }
-  (b, b.usage ≤ b.max)
+  ({ b with usage := b.usage + n }, b.usage + n ≤ b.max)
 
 /-- `Arena::new` (arena.rs:10): a failed preallocation is swallowed (`debug_assert!` only). -/
 def Buf.new (max prealloc : Nat) : Buf :=
-  let (b, ok) := ({ max := max } : Buf).increase prealloc
-  if ok then { b with cap := prealloc } else b
+  let r := ({ max := max } : Buf).increase prealloc
+  if r.2 then { r.1 with cap := prealloc } else r.1
 
 /-- `Arena::append` (arena.rs:26) -/
 def Buf.append (b : Buf) (s : Bytes) : Buf × Bool :=
   if b.cap - b.data.length < s.length then
-    let additional := s.length + b.data.length - b.cap
-    let (b, ok) := b.increase additional
-    if ok then ({ b with cap := b.data.length + s.length, data := b.data ++ s }, true) else (b, false)
+    let r := b.increase (s.length + b.data.length - b.cap)
+    if r.2 then ({ r.1 with cap := b.data.length + s.length, data := b.data ++ s }, true) else (r.1, false)
   else ({ b with data := b.data ++ s }, true)
 
 /-- `Arena::init_with` -/
@@ -89,50 +87,57 @@ def Stream.bail (w : World γ) (s : Stream γ) (e : Err) (slices : List Bytes) :
     s.setDisp d
   else s
 
+/-- the bytes the next parse will see: buffered tail ++ new data (`Arena::append`), or the data itself.
+`.inl` = the append hit the memory limit (the stream is returned after the bail-out flush). -/
+def Stream.chunkFor (w : World γ) (s : Stream γ) (data : Bytes) : Stream γ ⊕ (Stream γ × Bytes) :=
+  if s.hasBuffered then
+    let r := s.buf.append data
+    if r.2 then .inr ({ s with buf := r.1 }, r.1.data)
+    else .inl (({ s with buf := r.1 }).bail w .mem [s.buf.data, data])
+  else .inr (s, data)
+
+/-- after a successful parse: keep the unconsumed tail (`shift` / `init_with`, mod.rs:136-158) -/
+def Stream.keepTail (w : World γ) (s : Stream γ) (data chunk : Bytes) (consumed : Nat) : Stream γ × Except Err Unit :=
+  if consumed < chunk.length then
+    if s.hasBuffered then
+      match s.buf.shift consumed with
+      | some b => ({ s with buf := b }, .ok ())
+      | none => (s, .error (.panic "Arena::shift underflow"))
+    else
+      -- data.get(consumed..) is Some because consumed < chunk.len() = data.len()
+      let unconsumed := data.drop consumed
+      let r := s.buf.initWith unconsumed
+      let s := { s with buf := r.1 }
+      if r.2 then ({ s with hasBuffered := true }, .ok ())
+      else (s.bail w .mem [unconsumed], .error .mem)
+  else ({ s with hasBuffered := false }, .ok ())
+
 /-- `TransformStream::write` (mod.rs:94) -/
 def Stream.write (w : World γ) (s : Stream γ) (data : Bytes) : Stream γ × Except Err Unit :=
-  let pre : Except (Stream γ) (Stream γ × Bytes) :=
-    if s.hasBuffered then
-      let (b, ok) := s.buf.append data
-      let s := { s with buf := b }
-      if ok then .ok (s, b.data) else .error (s.bail w .mem [s.buf.data, data])
-    else .ok (s, data)
-  match pre with
-  | .error s => (s, .error .mem)
-  | .ok (s, chunk) =>
-    let (p, r) := s.parser.parse w.env chunk false
-    let s := { s with parser := p }
-    match r with
+  match s.chunkFor w data with
+  | .inl s => (s, .error .mem)
+  | .inr sc =>
+    let s := sc.1
+    let chunk := sc.2
+    let pr := s.parser.parse w.env chunk false
+    let s := { s with parser := pr.1 }
+    match pr.2 with
     | .error e => (s.bail w e [chunk], .error e)
     | .ok consumed =>
       match s.disp.flushRemaining chunk consumed with
       | .error e => (s, .error e)
-      | .ok d =>
-        let s := s.setDisp d
-        if consumed < chunk.length then
-          if s.hasBuffered then
-            match s.buf.shift consumed with
-            | some b => ({ s with buf := b }, .ok ())
-            | none => (s, .error (.panic "Arena::shift underflow"))
-          else
-            -- data.get(consumed..) is Some because consumed < chunk.len() = data.len()
-            let unconsumed := data.drop consumed
-            let (b, ok) := s.buf.initWith unconsumed
-            let s := { s with buf := b }
-            if ok then ({ s with hasBuffered := true }, .ok ())
-            else (s.bail w .mem [unconsumed], .error .mem)
-        else ({ s with hasBuffered := false }, .ok ())
+      | .ok d => (s.setDisp d).keepTail w data chunk consumed
 
 /-- `TransformStream::end` (mod.rs:163) -/
 def Stream.end (w : World γ) (s : Stream γ) : Stream γ × Except Err Unit :=
   let chunk : Bytes := if s.hasBuffered then s.buf.data else []
-  let (p, r) := s.parser.parse w.env chunk true
-  let s := { s with parser := p }
-  match r with
+  let pr := s.parser.parse w.env chunk true
+  let s := { s with parser := pr.1 }
+  match pr.2 with
   | .error e => (s.bail w e [chunk], .error e)
   | .ok _ =>
-    let (d, r) := s.disp.finish w.ctl chunk
-    (s.setDisp d, r)
+    let r := s.disp.finish w.ctl chunk
+    (s.setDisp r.1, r.2)
 
 /-- `HtmlRewriter` with `guarded!`: state of the public object. -/
 structure Rewriter (γ : Type) where
@@ -150,18 +155,18 @@ inductive CallRes
 def Rewriter.write (w : World γ) (r : Rewriter γ) (data : Bytes) : Rewriter γ × CallRes :=
   if r.poisoned then (r, .panicUseAfterError)
   else
-    let (s, res) := r.stream.write w data
-    match res with
-    | .ok () => ({ r with stream := s }, .ok)
-    | .error e => ({ r with stream := s, poisoned := true }, .err e)
+    let res := r.stream.write w data
+    match res.2 with
+    | .ok () => ({ r with stream := res.1 }, .ok)
+    | .error e => ({ r with stream := res.1, poisoned := true }, .err e)
 
 def Rewriter.end (w : World γ) (r : Rewriter γ) : Rewriter γ × CallRes :=
   if r.poisoned then (r, .panicUseAfterError)
   else
-    let (s, res) := r.stream.end w
-    match res with
-    | .ok () => ({ r with stream := s, ended := true }, .ok)
-    | .error e => ({ r with stream := s, poisoned := true, ended := true }, .err e)
+    let res := r.stream.end w
+    match res.2 with
+    | .ok () => ({ r with stream := res.1, ended := true }, .ok)
+    | .error e => ({ r with stream := res.1, poisoned := true, ended := true }, .err e)
 
 /-- sink log of the rewriter -/
 def Rewriter.sink (r : Rewriter γ) : List SinkEv := r.stream.disp.sink
